@@ -300,11 +300,16 @@ impl<'a, D: Dataset + ?Sized> ExecState<'a, D> {
     fn graph_rec(
         &mut self,
         var: &str,
-        mut graph_names: std::collections::btree_set::IntoIter<ArcTerm>,
+        graph_names: std::collections::btree_set::IntoIter<ArcTerm>,
         inner: &GraphPattern,
         binding: Option<&Binding>,
     ) -> Result<Bindings<'a, D>, SparqlWrapperError<D::Error>> {
-        if let Some(name) = graph_names.next() {
+        // NB: despite its name, this method is not recursive,
+        // so that neither the call stack nor the nesting of the resulting iterator
+        // grow with the number of graph names
+        let mut all_variables = vec![];
+        let mut iters = vec![];
+        for (i, name) in graph_names.enumerate() {
             // NB: `var` is not pre-bound while evaluating `inner`
             // (it must not be visible to the expressions of `inner`);
             // its binding is joined with each solution of `inner` afterwards.
@@ -330,15 +335,14 @@ impl<'a, D: Dataset + ?Sized> ExecState<'a, D> {
                     }
                 },
             });
-            let iter = Box::new(iter.chain(Box::new(
-                self.graph_rec(var, graph_names, inner, binding)?.iter,
-            )));
-            Ok(Bindings { variables, iter })
-        } else {
-            let variables = vec![];
-            let iter = Box::new(std::iter::empty());
-            Ok(Bindings { variables, iter })
+            if i == 0 {
+                all_variables = variables;
+            }
+            iters.push(iter);
         }
+        let variables = all_variables;
+        let iter = Box::new(iters.into_iter().flatten());
+        Ok(Bindings { variables, iter })
     }
 
     fn extend(
